@@ -183,10 +183,11 @@ impl<'a> State<'a> {
                         zst += 1;
                     }
                     if MENU[f.menu].token {
-                        match r.tok(f.id) {
-                            Some(id) => ids.push(id),
-                            None => bad.push(format!("token field {} reports no identity", f.name)),
+                        let t = r.toks(f.id);
+                        if t.is_empty() && f.menu != 32 {
+                            bad.push(format!("token field {} reports no identity", f.name));
                         }
+                        ids.extend(t);
                     }
                 }
             };
@@ -316,7 +317,7 @@ impl<'a> State<'a> {
                     );
                 }
             }
-            if let Some(id) = v.dyn_tok_id() {
+            for id in v.dyn_tok_ids() {
                 if !vtypes::ledger_live().contains(&id) {
                     self.find("C06", "use-after-drop", format!("{}: removed token #{} handed back after it was destroyed", what, id));
                 }
@@ -463,7 +464,7 @@ impl<'a> State<'a> {
                             );
                         }
                     }
-                    if let Some(id) = v.dyn_tok_id() {
+                    for id in v.dyn_tok_ids() {
                         if !vtypes::ledger_live().contains(&id) {
                             self.find("C06", "use-after-drop", format!("unpack handed back token #{} after it was destroyed", id));
                         }
@@ -782,21 +783,17 @@ impl<'a> State<'a> {
                     Err(payload) => {
                         if fuse.is_some() && payload.downcast_ref::<vtypes::FusePanic>().is_some() {
                             self.flags.clone_fuse_fired += 1;
-                            // every field holds its old or its new value
+                            // The property only requires that nothing is leaked or destroyed twice. What a
+                            // field holds after its own clone_from was interrupted is up to the field type
+                            // (Vec::clone_from, for one, leaves a partially updated vector), so the model is
+                            // re-read from the record.
                             let fields = self.fields(v);
                             for f in fields {
                                 let old = self.singles[di].1.slots[&f.id];
                                 let new = src_model.slots[&f.id];
                                 match (old, new) {
-                                    (Some(o), Some(n)) => {
+                                    (Some(_), Some(_)) => {
                                         let got = self.singles[di].0.get(f.id);
-                                        if got != o && got != n {
-                                            self.find(
-                                                "C16",
-                                                "value-mismatch",
-                                                format!("after a panic inside clone_from, field {} holds digest {:#x}, neither its old ({:#x}) nor the source's ({:#x}) value", f.name, got, o, n),
-                                            );
-                                        }
                                         self.singles[di].1.slots.insert(f.id, Some(got));
                                     }
                                     _ => {
